@@ -104,6 +104,7 @@ func main() {
 		"Each packet: (1) frames vs an independent reference encoder written from the v5 protocol (header bytes exact; JSON compared as a document with placeholders dereferenced to their attachment, numbering must be document order unless a map makes it free), " +
 		"(2) frames fed to a fresh parser: same type/namespace/id/name, decode into the emitted static types equals the model, every attachment byte-identical and in place (Binary below an `any` slot: not demanded), " +
 		"(3) deep snapshot of the value given to Encode equals it afterwards, (4) a second Encode of the same value gives canonically equal frames. " +
+		"(5) every ordered pair of packets over look-alike namespaces {/, /a, /ab, /abc, /a/b, /b, /a?x} x 8 shapes fed one after the other to ONE parser: the second must decode as on a fresh parser. " +
 		"Packets are de-duplicated by their full written-out form before evaluation (the three-argument block is distinct by construction: every sequence over a set of pairwise different values, verified, and no other block emits three arguments), so evaluations counts distinct packets; a packet is non-trivial unless it is a bare packet (no payload, no id) in namespace / with a plain a-z name."
 	r.Assumptions = []string{
 		"JSON serializer = stdjson (encoding/json), maxAttachments = 0 (unlimited), as the library's defaults",
@@ -277,6 +278,14 @@ func main() {
 			r.Violate(k, msg, map[string]any{"packet": a.p, "input": a.input, "tier": *tier})
 		}
 	}
+	// packets in sequence on one parser (a connection's parser is shared by all its packets)
+	seqFs, seqPairs := sequencePairs(creator())
+	for _, f := range seqFs {
+		r.Violate(f.key, f.msg, map[string]any{"part": "sequence-pairs", "tier": *tier})
+	}
+	r.Evaluations += seqPairs
+	r.DistinctNontriv += seqPairs
+	r.Extra["sequence_pairs_on_one_parser"] = seqPairs
 	r.Extra["blocks"] = bstats
 	r.Extra["note_on_counters"] = "the counters below are per oracle run: a packet whose numbering depends on map order is run 4 times (map_order_repeats)"
 	r.Extra["frames_byte_identical_to_reference"] = total.ByteIdentical
